@@ -24,6 +24,10 @@ def run(tier):
         vd.add_states(t)
     vecs, st = engine.generate("closure", 3, 16, wd)
     engine.replay(vd, vecs, bdir, wd, PID, check_illformed=False)
+    # bodies that change a slot below the top (family 'botslot'): the seen-set must tell stacks apart by every slot
+    vecs2, st2 = engine.generate("botslot", 1, 2, wd)
+    engine.replay(vd, vecs2, bdir, wd, PID, check_illformed=False)
+    st = dict(st, botslot=st2) if isinstance(st, dict) else [st, st2]
     dwarf_closures(vd, os.path.join(bdir, "bin", "zwdrv"), wd)
     return vd.finish(rule="closures over the DIE graphs of four sample files (bodies of one to three steps over child, parent, "
                      "@AT_type, ALT of them; * and +; from every unit root and from every DIE): the yields per input are the "
